@@ -127,7 +127,7 @@ def compiled_children(ast) -> list:
         return subs
     if k == "op":
         return [ast[2], ast[3]]
-    if k in ("getitem", "getattr", "fork_join", "tags", "peek"):
+    if k in ("getitem", "getattr", "fork_join", "tags", "peek", "subrun"):
         return [ast[1]]
     if k == "use":
         return [ast[1], ast[2]]
@@ -374,6 +374,10 @@ def interp(ast, env, cx):
         return par([interp(a, env, cx) for a in ast[2]]).then(lambda vs: attempt(f, *vs))
     if k == "fork_join":
         return interp(ast[1], env, cx)
+    if k == "subrun":
+        # evaluating through a sub-scheduler is equivalent to direct evaluation (C38); the
+        # sub-scheduler inherits the calling job's context
+        return interp(ast[1], env, cx)
     if k == "tags":
         return interp(ast[1], env, cx)
     if k == "throw":
@@ -481,7 +485,7 @@ def features(ast, acc=None, depth=0):
     elif k == "op":
         acc["kinds"].add("op:" + ast[1])
         go(ast[2]); go(ast[3])
-    elif k in ("getitem", "getattr", "fork_join", "tags"):
+    elif k in ("getitem", "getattr", "fork_join", "tags", "subrun"):
         go(ast[1])
     elif k == "let":
         go(ast[2]); go(ast[3])
